@@ -148,7 +148,13 @@ fn invocation(rng: &mut Rng, max_index: usize, leaves: &[String], depth: u32) ->
         };
         args.push(a);
     }
-    let sp = if rng.chance(1, 4) { " " } else { "" };
+    let sp = match rng.below(12) {
+        0..=2 => " ",
+        // (a comment is white space: the invocation stands)
+        3 => " /* c */ ",
+        4 => "/**/",
+        _ => "",
+    };
     let second = if depth == 0 && rng.chance(1, 4) {
         match rng.below(3) {
             0 => "()".to_string(),
@@ -202,6 +208,9 @@ fn function_define(rng: &mut Rng) -> String {
         body.push(e);
     }
     let mut text = body.join(" + ");
+    if arity == 1 && rng.chance(1, 10) {
+        return format!("#define {name}(a) defined a");
+    }
     if arity >= 2 && rng.chance(1, 6) {
         // nothing but parameters and punctuation: the invocation only exists after substitution
         text = match rng.below(3) {
@@ -223,6 +232,17 @@ fn function_define(rng: &mut Rng) -> String {
 
 fn condition(rng: &mut Rng) -> String {
     let m = rng.pick(MACROS);
+    if rng.chance(1, 40) {
+        // `defined` produced by macro replacement: C leaves it undefined, the model does not
+        // judge it - it must not bring the compiler down
+        let (f, _) = FUNCS[1];
+        return [
+            format!("#if {f}({m})"),
+            format!("#if {f}({m}) && defined({m})"),
+            format!("#if HAS_{m}"),
+        ][rng.below(3) as usize]
+            .clone();
+    }
     if rng.chance(1, 40) {
         // arithmetic in conditions is outside what the preprocessor (and the model) accept today;
         // it must be rejected, never crash
@@ -606,10 +626,23 @@ pub fn generate(rng: &mut Rng, mode: Mode, form: Form) -> Graph {
                         body
                     };
                     lines.push(hash(rng, format!("#define {m} {body}").trim_end()));
+                    if rng.chance(1, 30) {
+                        lines.push(format!("#define HAS_{m} defined({m})"));
+                    }
                 }
                 2 => {
-                    let m = *rng.pick(MACROS);
-                    lines.push(hash(rng, &format!("#undef {m}")))
+                    if rng.chance(1, 8) {
+                        // forget the guard of one of the files: it contributes again when included
+                        let g = rng.below(n as u64);
+                        lines.push(hash(rng, &format!("#undef G_{g}")));
+                        if let Some(t) = edges[i].first() {
+                            let sp = spell(rng, mode, &paths[i], &paths[*t]);
+                            lines.push(format!("#include \"{sp}\""));
+                        }
+                    } else {
+                        let m = *rng.pick(MACROS);
+                        lines.push(hash(rng, &format!("#undef {m}")))
+                    }
                 }
                 3 => {
                     let c = condition(rng);
@@ -748,6 +781,14 @@ pub fn generate(rng: &mut Rng, mode: Mode, form: Form) -> Graph {
             lines.push(condition(rng));
         }
         if protection == 2 {
+            // a guard may have an #else: what the file contributes from its second inclusion on
+            if rng.chance(1, 4) {
+                lines.push("#else".into());
+                lines.push(match form {
+                    Form::Pre => format!("m_{i}_again {} ;", rng.range(1, 9)),
+                    Form::Compile => format!("static const int m_{i}_again{} = 1 ;", rng.range(1, 3)),
+                });
+            }
             lines.push("#endif".into());
         }
         if let Some((di, leaf)) = &dangling
